@@ -127,12 +127,15 @@ fn run_payload(ty: &str, b: &[u8]) -> Option<(String, usize, usize)> {
     Some(match ty {
         "varint" => run::<VI>(b, none),
         "outpoint" => run::<OutPoint>(b, none), "txin" => run::<TxIn>(b, none), "txout" => run::<TxOut>(b, none), "tx" => run::<Tx>(b, none),
-        "blockheader" => run::<BlockHeader>(b, none), "invvect" => run::<InvVect>(b, none), "inv" => run::<Inv>(b, none),
+        // BlockHeader::validate takes arguments (its verdict belongs to C19): run on the decoded value against its own hash and
+        // against the zero hash (which passes every proof-of-work comparison, so the timestamp rule runs too); verdict dropped
+        "blockheader" => run::<BlockHeader>(b, |v| { let _ = v.validate(&v.hash(), &[]); let _ = v.validate(&chain_gang::util::Hash256([0; 32]), &[]); None }), "invvect" => run::<InvVect>(b, none), "inv" => run::<Inv>(b, none),
         "blocklocator" => run::<BlockLocator>(b, |v| Some(v.validate())),
         "ping" => run::<Ping>(b, none), "feefilter" => run::<FeeFilter>(b, none), "sendcmpct" => run::<SendCmpct>(b, none),
         "nodeaddr" => run::<NodeAddr>(b, none), "nodeaddrex" => run::<NodeAddrEx>(b, none),
         "version" => run::<Version>(b, |v| Some(v.validate())),
-        "addr" => run::<Addr>(b, none), "headers" => run::<Headers>(b, none), "block" => run::<Block>(b, none),
+        "addr" => run::<Addr>(b, none), "headers" => run::<Headers>(b, |v| { for h in v.headers.iter().take(64) { let _ = h.validate(&chain_gang::util::Hash256([0; 32]), &[]); } None }),
+        "block" => run::<Block>(b, |v| { let _ = v.header.validate(&chain_gang::util::Hash256([0; 32]), &[]); None }),
         // MerkleBlock::validate (its verdict belongs to C14) and MessageHeader::validate: run, verdict dropped
         "merkleblock" => run::<MerkleBlock>(b, |v| { let _ = v.validate(); None }),
         "filterload" => run::<FilterLoad>(b, |v| Some(v.validate())),
@@ -371,6 +374,15 @@ pub fn gen(tier: &str, rng: &mut Rng, out: &mut Vec<String>) {
     by_type.insert("bloomfilter".into(), bloom_seeds(rng));
     let (n_small, n_mid, flips) = if thorough { (8, 40, 96) } else { (4, 8, 24) };
 
+    // (0) block headers over the whole range of the compact difficulty word: every exponent byte x mantissas at the edges of
+    //     each mantissa byte (the expansion into a 32-byte target indexes by the exponent)
+    for e in (0u32..=40).chain(120..=136).chain(248..=255) {
+        for m in [0u32, 1, 0xff, 0x100, 0xffff, 0x1_0000, 0x7f_ffff, 0x80_0000, 0xff_ffff] {
+            let mut h = vec![0u8; 80]; h[0] = 1; h[68] = 1;
+            h[72..76].copy_from_slice(&((e << 24) | m).to_le_bytes());
+            reqs.push(format!("c06.payload blockheader {}", hexd(&h)));
+        }
+    }
     // (1) bare payloads: structure-aware corruptions of valid encodings of every type
     for ty in PTYPES.iter() {
         let mut seeds = by_type.remove(*ty).unwrap_or_default();
